@@ -123,9 +123,30 @@ def sched_cases(draw):
     }
 
 
+@st.composite
+def pooled_cases(draw):
+    """The shared optimizer runs its trials on an INTERNAL thread pool
+    (parallel='threads'), and several real threads ask it at the same moment
+    for the first time. Real threads, tiny switch interval: the schedule is the
+    operating system's (a stress run, as the property's quantifier names it);
+    the oracle is the deterministic one of every other mode."""
+    nthreads = draw(st.integers(2, 5))
+    return {
+        "mode": "pooled",
+        "pool": draw(pools(nthreads)),
+        "kind": draw(st.sampled_from(["Auto:cache", "Auto:nocache", "ReusableHyper", "ReusableRG", "ReusableHyper:improved"])),
+        "cutoff": draw(st.sampled_from([0, 0, None])),
+        "backend": draw(st.sampled_from(["threads", "threads", "concurrent.futures"])),
+        "entry": draw(st.sampled_from(["search", "call", "tree"])),
+        "rounds": draw(st.integers(1, 2)),
+    }
+
+
 def strategy(tier, sub=None):
     k = 3 if tier == "thorough" else 8
-    return st.integers(0, k - 1).flatmap(lambda i: sched_cases() if i == 0 else seq_cases())
+    return st.integers(0, 2 * k - 1).flatmap(
+        lambda i: sched_cases() if i < 2 else pooled_cases() if i == 2 else seq_cases()
+    )
 
 
 def budget(tier, sub=None):
@@ -138,7 +159,8 @@ def build_optimizer(spec):
     from cotengra.presets import AutoHQOptimizer, AutoOptimizer
 
     kind = spec["kind"]
-    hk = dict(max_repeats=3, max_time=None, optlib="random", parallel=False)
+    par = spec.get("parallel", False)
+    hk = dict(max_repeats=3, max_time=None, optlib="random", parallel=par)
     if kind.startswith("preset:"):
         return kind.split(":")[1]
     if kind.startswith("Auto"):
@@ -153,7 +175,7 @@ def build_optimizer(spec):
     if kind.startswith("ReusableHyper"):
         return ctg.ReusableHyperOptimizer(methods=["greedy"], overwrite=ow, **hk)
     if kind.startswith("ReusableRG"):
-        return ReusableRandomGreedyOptimizer(max_repeats=3, parallel=False, overwrite=ow)
+        return ReusableRandomGreedyOptimizer(max_repeats=3, parallel=par, overwrite=ow)
     raise ValueError(kind)
 
 
@@ -518,9 +540,70 @@ def run_sched(spec, state=None, tier="quick"):
     return Outcome([], preempted > 0, ["mode=sched", f"kind={spec['kind']}"], {"schedules": nrun, "yield_points": steps, "max_yield_points": steps})
 
 
+def run_pooled(spec):
+    import sys
+    import threading
+
+    import cotengra as ctg
+
+    warnings.filterwarnings("ignore")
+    # the library's cached pools are module level state: start every case cold
+    for h in (ctg.parallel.ThreadPoolHandler, ctg.parallel.ProcessPoolHandler):
+        h.shutdown()
+        h._n_workers = -1
+    backend = spec["backend"]
+    if backend == "concurrent.futures":
+        # (a process pool; only the random-greedy optimizer ships picklable work
+        # for it in every configuration used here)
+        if not spec["kind"].startswith("ReusableRG"):
+            backend = "threads"
+    ok, opt = guarded(build_optimizer, dict(spec, parallel=backend))
+    if not ok:
+        return Outcome([f"building {spec['kind']}(parallel={backend!r}) raised {opt}"], False, ["error"])
+    n = len(spec["pool"])
+    viol = []
+    old_si = sys.getswitchinterval()
+    sys.setswitchinterval(1e-6)
+    try:
+        for rnd in range(spec["rounds"]):
+            barrier = threading.Barrier(n)
+            results = [None] * n
+
+            def work(i):
+                q = query(spec["pool"][i], 0)
+                barrier.wait()
+                results[i] = guarded(ask, opt, spec["entry"], q)
+
+            ths = [threading.Thread(target=work, args=(i,)) for i in range(n)]
+            for t in ths:
+                t.start()
+            for t in ths:
+                t.join(600)
+            if any(t.is_alive() for t in ths):
+                from ..harness import HarnessError
+
+                raise HarnessError("c16 pooled: a thread did not finish within 600 s")
+            for i, r in enumerate(results):
+                what = f"round {rnd}, thread {i} of {n}: {spec['kind']}(parallel={backend!r}).{spec['entry']}(pool {i})"
+                if not r[0]:
+                    viol.append(f"{what} raised {r[1]}")
+                else:
+                    judge(r[1], query(spec["pool"][i], 0), what, viol)
+            if viol:
+                break
+    finally:
+        sys.setswitchinterval(old_si)
+        for h in (ctg.parallel.ThreadPoolHandler, ctg.parallel.ProcessPoolHandler):
+            h.shutdown()
+            h._n_workers = -1
+    return Outcome(viol, n >= 2, ["mode=pooled", f"kind={spec['kind']}", f"backend={backend}", f"threads={n}"], {"pooled_queries": n * spec["rounds"]})
+
+
 def run_case(spec, sub=None):
     if spec["mode"] == "seq":
         return run_seq(spec)
+    if spec["mode"] == "pooled":
+        return run_pooled(spec)
     return run_sched(spec)
 
 
@@ -558,6 +641,10 @@ def shard_main(tier, seed, shard, nshards, state):
         if spec["mode"] == "seq":
             out = run_seq(spec)
             state.record(spec, out)
+        elif spec["mode"] == "pooled":
+            out = run_pooled(spec)
+            state.record(spec, out)
+            state.stats["pooled_queries"] = state.stats.get("pooled_queries", 0) + out.stats.get("pooled_queries", 0)
         else:
             out = run_sched(spec, state=state if state.fail is None else None, tier=tier)
             for k in ("schedules", "max_yield_points"):
